@@ -4,6 +4,7 @@ implementation's observation: correspondence) and the property predicate evaluat
 implementation's own observation (a failure is a concrete failing input).
 -/
 import WtVerif.Driver.Text
+import WtVerif.Spec.H3
 
 namespace Ops
 open Text
@@ -131,6 +132,42 @@ def tsThreeWay (tail : Tail) (leftover : Bytes) (sync buf bufOff async frameEnd 
                | .lost => aterm == "io:not_connected"
                | .open_ => false)
             else aterm == term)]
+
+
+/-- the frames of a byte string by the independent varint reader of `Spec/H3.lean`: (type,
+payload) of every COMPLETE frame, in order (a WebTransport signal frame ends the framing) -/
+def specFrames : Nat → Bytes → List (Nat × Bytes)
+  | 0, _ => []
+  | fuel + 1, b =>
+    match Spec.varint b with
+    | none => []
+    | some (ty, r1) =>
+      if ty == Spec.FRAME_WEBTRANSPORT_STREAM then []
+      else match Spec.varint r1 with
+        | none => []
+        | some (len, r2) =>
+          if r2.length < len then [] else (ty, r2.take len) :: specFrames fuel (r2.drop len)
+
+/-- **Skipped whole**: every DATA / HEADERS / SETTINGS / GREASE frame a typestate reader delivered
+is, in order, a complete frame of the stream by the independent framing — never bytes from inside
+another element -/
+def deliveredAreFrames (b : Bytes) (seq : String) : Bool :=
+  let delivered : List (Nat × Bytes) := (seq.splitOn ";").filterMap fun o =>
+    match o.splitOn ":" with
+    | ["frame", k, p, _] =>
+      let ty : Option Nat :=
+        if k == "data" then some Spec.FRAME_DATA else if k == "headers" then some Spec.FRAME_HEADERS
+        else if k == "settings" then some Spec.FRAME_SETTINGS
+        else if k.startsWith "ex" then (k.drop 2).toString.toNat? else none
+      match ty, (if p == "-" then some [] else unhex p) with
+      | some t, some pl => some (t, pl)
+      | _, _ => none
+    | _ => none
+  let rec sub : List (Nat × Bytes) → List (Nat × Bytes) → Bool
+    | [], _ => true
+    | _ :: _, [] => false
+    | x :: xs, y :: ys => if x == y then sub xs ys else sub (x :: xs) ys
+  sub delivered (specFrames (b.length + 1) b)
 
 def handleCore (op : String) (a obs : List String) : Option Verdict :=
   match op with
@@ -326,18 +363,21 @@ def handleCore (op : String) (a obs : List String) : Option Verdict :=
     let role ← parseRole (get a 0)
     let b ← unhex (get a 1)
     let (outs, rest) := tsLoopSync role (b.length + 2) false b []
-    pure ([";".intercalate outs, toString (b.length - rest.length)], check [("no_trap", !isTrap obs)])
+    pure ([";".intercalate outs, toString (b.length - rest.length)], check [("no_trap", !isTrap obs),
+      ("delivered_frames_are_frames_of_the_stream", deliveredAreFrames b (get obs 0))])
   | "ts.readbuf" => do
     let role ← parseRole (get a 0)
     let b ← unhex (get a 1)
     let (outs, rest) := tsLoopSync role (b.length + 2) false b []
-    pure ([";".intercalate outs, toString (b.length - rest.length)], check [("no_trap", !isTrap obs)])
+    pure ([";".intercalate outs, toString (b.length - rest.length)], check [("no_trap", !isTrap obs),
+      ("delivered_frames_are_frames_of_the_stream", deliveredAreFrames b (get obs 0))])
   | "ts.readasync" => do
     let role ← parseRole (get a 0)
     let b ← unhex (get a 1)
     let sc ← parseScript (get a 2)
     let (outs, s') := tsLoopAsync role (b.length + sc.length + 2) false ⟨b, parseTail (get a 3)⟩ sc []
-    pure ([";".intercalate outs, toString (b.length - s'.rest.length)], check [("no_trap", !isTrap obs)])
+    pure ([";".intercalate outs, toString (b.length - s'.rest.length)], check [("no_trap", !isTrap obs),
+      ("delivered_frames_are_frames_of_the_stream", deliveredAreFrames b (get obs 0))])
   | "ts.all" => do
     -- role hex script tail | sync_seq sync_consumed buf_seq buf_off async_seq async_consumed
     let role ← parseRole (get a 0)
